@@ -24,6 +24,12 @@ def configs(tier, seed):
         for w, d in [(1, 1), (2, 2), (3, 2), (2, 3)]:
             out.append(dict(kind="linear", args=[w, d], S=2, mults=big, ngrams=ng, depth=4))
         out.append(dict(kind="linear", args=[2, 2], S=3, mults=[1, 2**32 - 2], ngrams=[], depth=3))
+        # sketches living in shared memory, odd table size (bookkeeping counters unaligned)
+        out.append(dict(kind="linear", args=[3, 3], S=2, mults=[1, 5], ngrams=[], depth=3, shared=True))
+        out.append(dict(kind="linear", args=[5, 1], S=2, mults=[1, 2**32 - 2], ngrams=ng[:1], depth=3,
+                        shared=True))
+        # update(list) and update(one-shot iterable)
+        out.append(dict(kind="linear", args=[2, 2], S=2, mults=[1], ngrams=[], depth=4, updates=True))
         out.append(dict(kind="linear", args=[2, 2], S=4, mults=[2**32 - 2], ngrams=[], depth=3,
                         saveload=False))
     else:
@@ -37,18 +43,24 @@ def configs(tier, seed):
                         saveload=False))
         out.append(dict(kind="linear", args=[2, 2], S=4, mults=[2**32 - 2], ngrams=[], depth=4,
                         saveload=False))
+        out.append(dict(kind="linear", args=[3, 3], S=2, mults=[1, 5], ngrams=[], depth=4, shared=True))
+        out.append(dict(kind="linear", args=[5, 1], S=2, mults=big, ngrams=ng, depth=4, shared=True))
+        out.append(dict(kind="linear", args=[2, 2], S=2, mults=[1, 3], ngrams=ng, depth=4, updates=True))
     return out
 
 
 def pool_size(tier):
-    return 6 if tier == "quick" else 16
+    return 9 if tier == "quick" else 16
 
 
 def task(arg):
     """One configuration = one independent BFS (runs in a pool worker)."""
     cfg, seed, tier, modes = arg
     from ..pool import SubReporter
+    from ..common import quiet_shm
 
+    if cfg.get("shared"):
+        quiet_shm()
     sub = SubReporter(seed, tier)
     scratch = tmpdir()
     try:
@@ -90,6 +102,10 @@ def run(rep):
 
 
 def replay(case):
+    if case["cfg"].get("shared"):
+        from ..common import quiet_shm
+
+        quiet_shm()
     scratch = tmpdir()
     try:
         return C.CMSys(scratch, case.get("modes", MODES)).replay(case["cfg"], case["events"])
